@@ -58,6 +58,17 @@ var Workloads = []Workload{
 	{"flush-per-frame-rendezvous", func() []*prog.Script {
 		return []*prog.Script{{Tag: 1, Client: []prog.Act{A('s', 1100), A('r', 0), A('h', 0), A('R', 0)}, Handler: []prog.Act{A('r', 0), A('s', 1100), A('R', 0)}}}
 	}, 1, 0},
+	{"recv-first", func() []*prog.Script {
+		// the client's first call is a receive: the buffered invoke goes out through the receive's own flush
+		return []*prog.Script{{Tag: 1, Client: []prog.Act{A('r', 0), A('s', 10), A('h', 0), A('R', 0)}, Handler: []prog.Act{A('s', 20), A('r', 0), A('R', 0)}}}
+	}, 0, -1},
+	{"recv-only", func() []*prog.Script {
+		// nothing but a receive on the client: no later call of the application helps the stream along
+		return []*prog.Script{{Tag: 1, Client: []prog.Act{A('r', 0)}, Handler: []prog.Act{A('s', 20), A('R', 0)}}}
+	}, 0, -1},
+	{"handler-sends-after-client-close", func() []*prog.Script {
+		return []*prog.Script{{Tag: 1, Client: []prog.Act{A('s', 10), A('c', 0)}, Handler: []prog.Act{A('r', 0), A('s', 30), A('s', 1500), A('s', 30)}}}
+	}, 1, -1},
 	{"rendezvous-unary-big", func() []*prog.Script {
 		return []*prog.Script{{Tag: 1, Unary: true, ReqSize: 6000, Handler: []prog.Act{A('r', 0), A('s', 6000)}}}
 	}, 0, 0},
